@@ -292,6 +292,15 @@ def reachable(root):
     return order
 
 
+def scan(root, reg):
+    """gives every node that is new since the last call its identity (a container is recognised by the payload it was
+    created around, so this runs after every operation, before a later one can change the container)"""
+    L = lib()
+    for o in reachable(root):
+        if isinstance(o, L["ConfigNode"]):
+            reg.label(o)
+
+
 def project(root, reg):
     """[[id, kind, py, cm] ..] sorted by id, the shape of AyContainer!HeapSeq"""
     L = lib()
@@ -426,6 +435,7 @@ def judge_line(j, starts):
     exc = ""
     for op in ops:
         exc = apply_op(root, op)
+        scan(root, reg)
     proj = project(root, reg)
     evtok = real_eval(root)
     rbad = real_broken(root, evtok)
@@ -893,6 +903,7 @@ def run_replay(path):
     exc = ""
     for op in ops:
         exc = apply_op(root, op)
+        scan(root, reg)
     proj = project(root, reg)
     evtok = real_eval(root)
     rbad = real_broken(root, evtok)
